@@ -8,6 +8,9 @@ for f in sorted(os.listdir(os.path.join(VERIF, 'harness', 'props'))):
     if f.endswith('.meta.json'):
         d = json.load(open(os.path.join(VERIF, 'harness', 'props', f)))
         CLAIMED[f[:3].upper()] = (d['technique'], d['level_text'], d['level_note'], d.get('design_ref', 'DESIGN.md 4'))
+# only properties integrated (fixes cherry-picked, check green on /repo) are claimed: harness/claimed.json
+INTEGRATED = set(json.load(open(os.path.join(VERIF, 'harness', 'claimed.json'))))
+CLAIMED = {k: v for k, v in CLAIMED.items() if k in INTEGRATED}
 PENDING = {}
 if os.path.exists(os.path.join(VERIF, 'harness', 'not_claimed.json')):
     PENDING = json.load(open(os.path.join(VERIF, 'harness', 'not_claimed.json')))
